@@ -532,6 +532,18 @@ Theorem c11_symbolizer_from_bytes : forall nm tg (bytes : list Z) (sch : list Z)
 Proof. exact Text3.bytes_module_parsed. Qed.
 Print Assumptions c11_symbolizer_from_bytes.
 
+(* Front-end G, Symbolizer::get_symbol_at_address(debug_file, debug_id, address) ([Driver.symbol_at]: the module of a
+   (&str, DebugId) pair has base 0; only the name is returned): on any table parsed from the records it never panics
+   and the name is that of a FUNC record covering the address or of a PUBLIC at or below it. *)
+Theorem c11_symbol_at_sound : forall p rf st address,
+  wf_file rf -> st_rel true rf st -> 0 <= address < two64 ->
+  exists r, RM.C11.Driver.symbol_at p st address = Ret r /\
+    forall n, r = Some n ->
+      (exists fr, In fr (rf_funcs rf) /\ func_covers fr address = true /\ n = fr_name fr) \/
+      (exists pb, In pb (rf_publics rf) /\ p_addr pb <= address /\ n = p_name pb).
+Proof. exact Text3.symbol_at_sound. Qed.
+Print Assumptions c11_symbol_at_sound.
+
 (* get_inlinee_at_depth, exactly, for EVERY FUNC block — overlapping INLINE ranges, duplicate
    (depth, address) keys, records in any order.  [kept fr] = the INLINE ranges of the block with
    non-zero size (finish_item's retain); [nearest l d x c]: c is the greatest record of l, in the
